@@ -176,16 +176,18 @@ def line_wrap_by_sentence(
 
             first_line = False
 
+        # Restore original adjacency for paired tags (remove spaces added during
+        # tokenization), before the indents are inserted.
+        if lines:
+            lines = denormalize_adjacent_tags("\n".join(lines), original=text).split("\n")
+
         # Now insert the indents and assemble the paragraph.
         if initial_indent and len(lines) > 0:
             lines[0] = initial_indent + lines[0]
         if subsequent_indent and len(lines) > 1:
             lines[1:] = [subsequent_indent + line for line in lines[1:]]
 
-        result = "\n".join(lines)
-
-        # Restore original adjacency for paired tags (remove spaces added during tokenization)
-        return denormalize_adjacent_tags(result)
+        return "\n".join(lines)
 
     if is_markdown:
         # Apply tag newline handling first, then hard break handling
